@@ -235,8 +235,18 @@ func (r *Rig) State(addresses []string) (*State, error) {
 		trxs, _ := r.Cache.ReadTransactions(a)
 		var hs []string
 		for _, t := range trxs {
-			hs = append(hs, ledger.HexFull(t.Hash))
-			await[a+"|"+ledger.HexFull(t.Hash)] = true
+			// the entry is its hash and its content: an awaiting transaction whose fields change (a receiver signature
+			// attached, data altered) is another entry
+			c := sha256.New()
+			fmt.Fprintf(c, "%s|%s|%s|%d|%d|%d|", t.Subject, t.IssuerAddress, t.ReceiverAddress, t.CreatedAt.UnixNano(), t.Spice.Currency, t.Spice.SupplementaryCurrency)
+			c.Write(t.Data)
+			c.Write([]byte{0})
+			c.Write(t.IssuerSignature)
+			c.Write([]byte{0})
+			c.Write(t.ReceiverSignature)
+			key := ledger.HexFull(t.Hash) + fmt.Sprintf("/content-%x", c.Sum(nil)[:6])
+			hs = append(hs, key)
+			await[a+"|"+key] = true
 		}
 		sort.Strings(hs)
 		fmt.Fprintf(h, "|A%s:%v", a, hs)
@@ -261,12 +271,12 @@ func SameOrOnlyTipsDropped(a, b *State) (bool, string) {
 		var gone, came []string
 		for k := range a.Await {
 			if !b.Await[k] {
-				gone = append(gone, k[len(k)-12:])
+				gone = append(gone, k[len(k)-34:])
 			}
 		}
 		for k := range b.Await {
 			if !a.Await[k] {
-				came = append(came, k[len(k)-12:])
+				came = append(came, k[len(k)-34:])
 			}
 		}
 		return false, fmt.Sprintf("awaiting cache or peer table differ (awaiting entries gone %v, new %v; peer table before %s after %s)", gone, came, a.Peers, b.Peers)
